@@ -55,6 +55,25 @@ void profile_cfg_more(const std::string &prof, uint64_t seed, RunCfg &c, Rng &r)
       c.beh_w = {0, 10, 5, 0, 0, 0, 0, 80, 0, 0, 5, 0, 0, 0, 0};
       if (r.chance(0.5)) c.knobs["nactive"] = 1;
     }
+  } else if (prof == "C14") {
+    // healthy network: the only fault of a C14 run is the one failing allocation
+    c.faults = 0;
+    c.allow_cancel_in_cb = 1;
+    c.beh_w = {88, 0, 0, 0, 0, 0, 12, 0, 0, 0, 0, 0, 0, 0, 0};   // answers; some truncation so TCP paths are enumerated too
+    c.tries = 2 + (int)r.below(2);
+    c.timeout_ms = 100 + (int)r.below(400);
+    c.maxtimeout_ms = -1;
+    c.qcache_max_ttl = r.chance(0.75) ? 300 : 0;
+    c.use_tokens = r.chance(0.35) ? 0 : 1;                        // token-less names repeat, which gives cache hits
+    c.names.resize(3 + r.below(3));
+    c.hosts_file = "127.0.0.1 localhost\n::1 localhost\n10.77.0.1 hostsname1 alias1\nfd77::1 hostsname1\n";
+    c.names.push_back("!hostsname1"); c.names.push_back("!localhost"); c.names.push_back("!10.1.2.3");
+    if (r.chance(0.4)) c.sortlist = r.chance(0.5) ? "10.0.0.0/8" : "fd00::/8 10.128.0.0/9";
+    if (r.chance(0.3)) c.nsswitch = "hosts: files dns\n";
+    for (auto &sv : c.servers) sv.cookie_mode = r.chance(0.4) ? CK_GOOD : 0;
+    if (r.chance(0.3)) c.local_dev = "eth0";
+    if (r.chance(0.2)) c.local_ip4 = 0xC0000250;
+    c.sock_create_cb = r.chance(0.2) ? 1 : 0; c.sock_config_cb = r.chance(0.2) ? 1 : 0;
   } else if (prof == "C07") {
     c.allow_cancel_in_cb = 0;
     c.beh_w = {45, 4, 2, 0, 3, 0, 5, 35, 4, 1, 1, 0, 1, 0, 0};
@@ -295,6 +314,12 @@ bool profile_plan_more(const RunCfg &c, Rng &r, std::vector<Step> &plan) {
       if (s.k == S_REQ) s.d = (s.d / R_NREACT) * R_NREACT + R_NONE;
       plan.push_back(s);
     }
+    return true;
+  }
+  if (p == "C14") {
+    // short scenarios: every allocation of each is going to be failed in turn
+    gen(c, r, plan, weights({{S_REQ, 40}, {S_ADV, 36}, {S_SETSRV, 4}, {S_REINIT, 3}, {S_CANCEL, 3}, {S_DUP, 3}, {S_SAVEOPT, 3}, {S_CSVROUND, 2}, {S_SORTLIST, 2}, {S_LOCAL, 1}, {S_QUERYINFO, 3}}), 3, 12);
+    for (auto &s : plan) if (s.k == S_ADV) { s.a = 0; s.b = 0; }
     return true;
   }
   if (p == "C09") {
@@ -1364,6 +1389,9 @@ static void c10_after(Run &run) {
     // a fast-open TCP connection whose first write was deferred through the pending-write notification has not been
     // used at all yet; the application has been told to call ares_process_pending_write() instead
     if (v->kind == FD_TCP && v->n_send_ok == 0 && c.pending_write > 0) { run.note("tfo_conn_awaiting_pending_write"); continue; }
+    // a fast-open socket on which no send was ever attempted has no connection attempt in flight (the SYN goes out with the
+    // first data): no event can occur on it, so there is nothing to watch yet
+    if (v->kind == FD_TCP && v->tfo && v->n_send_calls == 0) { run.note("tfo_conn_never_written"); continue; }
     if (!rd) run.violate("C10", "open_socket_not_watched", "socket " + std::to_string(fd) + " is open but the application was not told to watch it for reading");
     // a pending connect (plain, or fast-open once the SYN data went out) is reported by a write event, which the library
     // needs in order to send anything queued meanwhile
@@ -1427,6 +1455,136 @@ static void c20_after(Run &run) {
 }
 
 // ---------------------------------------------------------------------------------------------
+// C14: any single allocation failure is survived cleanly
+// ---------------------------------------------------------------------------------------------
+struct C14Ref { bool valid = false; uint64_t seed = 0; std::vector<std::string> per_req; };
+static C14Ref g_c14_ref;
+static std::string c14_req_shape(const Req &r) {
+  if (!r.accepted) return "-";
+  if (r.cb_count == 0) return "?";
+  std::string s = ares_status_name(r.status);
+  if (r.status != ARES_SUCCESS) return s;
+  s += " an=" + std::to_string(r.got.decode_err.empty() ? r.got.msg.an.size() : 0) + " addrs=" + std::to_string(r.got.addrs.size()) + " aliases=" + std::to_string(r.got.aliases.size());
+  if (!r.got.node.empty() || !r.got.service.empty()) s += " node=" + std::to_string(!r.got.node.empty()) + " svc=" + r.got.service;
+  return s;
+}
+static void c14_config_steps(Run &r, const Step &s) {
+  Chan &c = r.chans[0];
+  if (!c.alive) return;
+  switch (s.k) {
+    case S_DUP: {
+      ares_channel_t *copy = nullptr;
+      W.api_seq++;
+      int rc = ares_dup(&copy, c.ch);
+      r.note(rc == ARES_SUCCESS ? "dup_ok" : "dup_failed");
+      if (rc != ARES_SUCCESS && copy != nullptr) r.violate("C14", "dup_failed_but_returned_channel", "ares_dup returned " + std::string(ares_status_name(rc)) + " and a non-NULL channel");
+      if (rc == ARES_SUCCESS && copy == nullptr) r.violate("C14", "dup_ok_without_channel", "ares_dup returned success and a NULL channel");
+      if (copy) ares_destroy(copy);
+      break;
+    }
+    case S_SAVEOPT: {
+      struct ares_options o; int mask = 0;
+      memset(&o, 0, sizeof o);
+      W.api_seq++;
+      int rc = ares_save_options(c.ch, &o, &mask);
+      r.note(rc == ARES_SUCCESS ? "save_options_ok" : "save_options_failed");
+      // a failed save leaves what it had already copied in the (zero-initialised) structure; the caller releases it, as the
+      // library's own ares_dup() does
+      ares_destroy_options(&o);
+      break;
+    }
+    case S_CSVROUND: {
+      W.api_seq++;
+      char *csv = ares_get_servers_csv(c.ch);
+      r.note(csv ? "get_servers_csv_ok" : "get_servers_csv_null");
+      if (csv) { if (s.a & 1) { int rc = ares_set_servers_ports_csv(c.ch, csv); r.note(rc == ARES_SUCCESS ? "csv_round_ok" : "csv_round_failed"); } ares_free_string(csv); }
+      struct ares_addr_port_node *n = nullptr;
+      if ((s.a & 2) && ares_get_servers_ports(c.ch, &n) == ARES_SUCCESS && n) ares_free_data(n);
+      break;
+    }
+    case S_LOCAL: {
+      W.api_seq++;
+      if (s.a & 1) ares_set_local_dev(c.ch, (s.a & 2) ? "eth1" : "");
+      else ares_set_local_ip4(c.ch, (s.a & 2) ? 0xC0000251 : 0);
+      break;
+    }
+    case S_QUERYINFO: {
+      W.api_seq++;
+      (void)ares_queue_active_queries(c.ch);
+      struct timeval tv, mx; mx.tv_sec = 1; mx.tv_usec = 0;
+      (void)ares_timeout(c.ch, (s.a & 1) ? &mx : nullptr, &tv);
+      break;
+    }
+    default: break;
+  }
+}
+static void c14_before_destroy(Run &run) {
+  if (run.cfg.profile != "C14") return;
+  Chan &c = run.chans[0];
+  if (!c.alive) return;
+  bool reference = run.cfg.knob("fail_at", -1) <= 0;
+  // reference run: nothing extra (its allocation count defines the enumeration range). Failing run: once the one failure
+  // has been delivered the channel must still work - a fresh query against a healthy server succeeds.
+  if (reference || g_alloc.failed == 0) return;
+  run.note("usability_checked");
+  std::vector<int> all; for (size_t i = 0; i < run.cfg.servers.size(); i++) all.push_back((int)i);
+  W.api_seq++;
+  std::string csv;
+  for (int i : all) { const ServerSpec &sv = run.cfg.servers[(size_t)i]; bool v6 = sv.ip.find(':') != std::string::npos; csv += (csv.empty() ? "" : ",") + (sv.udp_port == sv.tcp_port ? (v6 ? "[" + sv.ip + "]:" + std::to_string(sv.udp_port) : sv.ip + ":" + std::to_string(sv.udp_port)) : "dns://" + (v6 ? "[" + sv.ip + "]" : sv.ip) + ":" + std::to_string(sv.udp_port) + "?tcpport=" + std::to_string(sv.tcp_port)); }
+  int rc = ares_set_servers_ports_csv(c.ch, csv.c_str());
+  if (rc != ARES_SUCCESS) { run.violate("C14", "channel_unusable_after_failure", "ares_set_servers_ports_csv('" + csv + "') returned " + ares_status_name(rc) + " after the failed allocation (no further failure injected)"); return; }
+  run.active = all;
+  // a name whose zone outcome is data
+  int sel = -1;
+  for (size_t i = 0; i < run.cfg.names.size() && sel < 0; i++) {
+    const std::string &b = run.cfg.names[i];
+    if (b.empty() || b[0] == '!' || b.find('.') == std::string::npos) continue;
+    std::string full = "t9999." + b;
+    if (W.zone_outcome(dnsref::name_from_text(full), 1) == Z_DATA) sel = (int)i;
+  }
+  if (sel < 0) { run.note("usability_no_healthy_name"); return; }
+  int saved_tokens = run.cfg.use_tokens; run.cfg.use_tokens = 1;
+  int saved_qt = run.cfg.qtypes.empty() ? 1 : run.cfg.qtypes[0];
+  if (run.cfg.qtypes.empty()) run.cfg.qtypes.push_back(1); else run.cfg.qtypes[0] = 1;
+  int tok = run.submit(K_QUERY_DNSREC, sel, 0, R_NONE, 0, false, 0, 0);
+  run.cfg.qtypes[0] = saved_qt; run.cfg.use_tokens = saved_tokens;
+  if (tok < 0) return;
+  for (int i = 0; i < 400 && run.reqs[(size_t)tok].cb_count == 0; i++) {
+    Step s; s.k = S_ADV; run.exec_step(s);
+    if (getenv("SIM_DBG_C14") && i < 6) {
+      fprintf(stderr, "C14 usability turn %d now=%lld next_flight=%lld hint=%lld pending_write=%d:", i, (long long)W.now_us, (long long)W.next_flight_time(), (long long)run.hint_time(0), c.pending_write);
+      for (auto &p : c.interest) { VFd *v = W.get(p.first); fprintf(stderr, " fd%d(r%d w%d open%d readable%d writable%d)", p.first, p.second.first, p.second.second, v ? (int)v->open : -1, v ? (int)W.readable(*v) : -1, v ? (int)W.writable(*v) : -1); }
+      fprintf(stderr, "\n");
+    }
+  }
+  const Req &q = run.reqs[(size_t)tok];
+  // the zone answer for a tokened name differs from the untokened probe above only in the token label, which the zone key ignores
+  if (q.cb_count == 0 || (q.status != ARES_SUCCESS && q.status != ARES_ENODATA && q.status != ARES_ENOTFOUND))
+    run.violate("C14", "channel_unusable_after_failure", "a fresh query (" + q.name + ") on the channel after allocation #" + std::to_string(run.cfg.knob("fail_at")) + " had failed ended with " + (q.cb_count ? ares_status_name(q.status) : "no callback") + " although the network is healthy");
+  else run.note("usability_ok");
+}
+static void c14_end(Run &run) {
+  bool reference = run.cfg.knob("fail_at", -1) <= 0;
+  // the statement includes the per-request guarantee: re-attribute ledger violations seen in this profile
+  for (auto &v : run.viol) if (v.prop == "C01") { v.prop = "C14"; v.oracle = "ledger_" + v.oracle; }
+  if (reference) {
+    g_c14_ref = C14Ref(); g_c14_ref.valid = true; g_c14_ref.seed = run.cfg.seed;
+    for (auto &r : run.reqs) g_c14_ref.per_req.push_back(c14_req_shape(r));
+    return;
+  }
+  if (g_alloc.failed) run.note("allocation_failure_delivered");
+  if (!g_c14_ref.valid || g_c14_ref.seed != run.cfg.seed) return;
+  // a request that reports success must have "proceeded correctly": same answer shape as without the failure
+  for (size_t i = 0; i < run.reqs.size() && i < g_c14_ref.per_req.size(); i++) {
+    const Req &r = run.reqs[i];
+    if (!r.accepted || r.cb_count == 0 || r.status != ARES_SUCCESS) continue;
+    if (g_c14_ref.per_req[i].compare(0, 7, "SUCCESS") != 0) continue;
+    std::string now = c14_req_shape(r);
+    if (now != g_c14_ref.per_req[i]) { run.note("success_shape_differs"); if (run.cfg.knob("strict_shape")) run.violate("C14", "success_with_different_result", "request " + std::to_string(i) + " (" + req_kind_name[r.kind] + " " + r.name + ") reports success with [" + now + "] but without the allocation failure it gives [" + g_c14_ref.per_req[i] + "]"); break; }
+  }
+}
+
+// ---------------------------------------------------------------------------------------------
 void profile_attach_more(Run &run) {
   const std::string &p = run.cfg.profile;
   g_rich.clear();
@@ -1444,6 +1602,7 @@ void profile_attach_more(Run &run) {
   auto prev_after = run.after_step;
   run.after_step = [prev_after, p](Run &r) { if (prev_after) prev_after(r); c06_after(r); if (r.cfg.mode == 0) c10_after(r); };
   if (p == "C09") run.at_end = c09_end;
+  if (p == "C14") { run.at_end = c14_end; run.before_destroy = c14_before_destroy; run.extra_step = c14_config_steps; }
   if (p == "C17") {
     run.at_end = c17_end;
     run.extra_step = [](Run &r, const Step &s) {
@@ -1508,6 +1667,7 @@ bool profile_nontrivial(const Run &run) {
   if (p == "C12") return base && get("search_walk_multi_candidate") > 0;
   if (p == "C13") return base && get("address_set_checked") > 0;
   if (p == "C09") return base && get("selection_with_failed_servers") > 0;
+  if (p == "C14") return run.cfg.knob("fail_at", -1) <= 0 ? base : get("allocation_failure_delivered") > 0;
   if (p == "C17") return base && get("cookie_tx_checked") > 0 && get("server_cookie_learned") > 0;
   if (p == "C20") return base && get("differential_compared") > 0 && (W.stat.count("send_short") || W.stat.count("recv_short") || W.stat.count("send_eagain_window") || W.stat.count("recv_eagain_injected") || get("zero_length_datagram") > 0 || !W.fault_fired.empty());
   if (p == "C01") return base && (get("req_from_callback") + get("cancel_in_callback") + get("cancel_with_outstanding") > 0 || !W.fault_fired.empty());
@@ -1520,6 +1680,7 @@ const char *profile_rule(const std::string &prof) {
   if (prof == "C07") return "runs are seeded plans with silent/slow servers and sleep-exactly/overshoot/stall steps; non-trivial = the hint was compared with a real deadline and at least one loop turn ran with an expired deadline; distinct = distinct trace-shape hash";
   if (prof == "C17") return "runs are seeded histories against servers with scripted cookie behaviour (none, valid, changing, wrong client part, short/long, BADCOOKIE once/always/without cookie, support withdrawn and restored), source-address changes and clock jumps placed around 120 s / 300 s / 1 day (including exact-second instants); a reference RFC 7873 client model judges every COOKIE option seen at the virtual server and every delivered answer; non-trivial = cookies were sent and at least one server cookie was learned; distinct = distinct trace-shape hash";
   if (prof == "C09") return "runs are seeded success/failure histories over 1..6 servers (silence, error rcodes, partitions, open/connect/receive failures), rotation on/off, failover options (retry chance 0/1/n, retry delay 0/short/long), server-list edits in flight and clock advances across the retry delay; a reference health table is driven by the public server-state callback stream and every UDP transmission must go to a server the policy allows or be a legal probe copy; non-trivial = at least one transmission was judged while some server had failures; distinct = distinct trace-shape hash";
+  if (prof == "C14") return "a scenario is a seeded short plan (channel init with options and system files, 1..8 requests of all kinds driven to completion against a healthy network, cache hits, server-list edits, reinit, cancel, dup, save-options, destroy); it is executed once without failure to count its N allocator calls and then once per n in 1..N with exactly the n-th allocation failing (quick tier: at most --max-subs evenly spread n per scenario); evaluations counts executions; non-trivial = the injected failure was actually delivered; distinct = distinct trace-shape hash";
   if (prof == "C13") return "runs are seeded sets of getaddrinfo/gethostbyname/gethostbyaddr/getnameinfo requests (families, hint flags, ports, sortlists, lookup orders, hosts-file names, literals, localhost) against answers with 1..40 unique marker addresses, CNAME chains, other-family and foreign-class records in the answer section and address records in the additional section, with faults on the source-address discovery used for sorting; non-trivial = at least one DNS-answered address set was compared as a multiset with the accepted answers; distinct = distinct trace-shape hash";
   if (prof == "C12") return "runs are seeded sets of search/getaddrinfo/gethostbyname requests over name shapes (0..4 dots, trailing dot, long labels, names that stop fitting once a domain is appended, host aliases) x ndots x domain lists (incl. root) x flags, with a per-candidate outcome (data, NODATA, NXDOMAIN, SERVFAIL, REFUSED, timeout) fixed by keyed hash; the question names seen at the virtual server and the final status are compared with an independent resolv.conf(5) reference; non-trivial = at least one request whose reference candidate list has more than one entry was checked; distinct = distinct trace-shape hash";
   if (prof == "C05") return "runs are seeded histories of genuine traffic (loss, delay, duplicates, late replies, error rcodes, TC) with an off-path adversary injecting datagrams that differ from the would-be-valid reply in one respect (id, socket, source address, name, type, class, question count, letter case, cookie) at chosen instants of a query's life; every delivered datum carries a unique marker naming its packet; non-trivial = at least one forged packet was injected while traffic was processed; distinct = distinct trace-shape hash";
